@@ -27,6 +27,9 @@ ANIMALS = {
     "B": ((41.6, 26.3), [(-6.1, 4.2), (1.3, -5.7), (8.2, 3.9)]),
     "C": ((27.3, 19.8), [(-5.3, -5.8), (-0.6, 6.1), (6.7, -4.4)]),
     "P": ((40.2, 12.9), [(-6.6, 0.7), (0.9, -6.2), (5.8, 5.1)]),
+    # E: every node on the left border strip (x = 0 exactly); O: wholly outside the 40x56 frame (annotation just out of view)
+    "E": ((0.0, 27.4), [(0.0, -10.3), (0.0, 0.6), (0.0, 10.9)]),
+    "O": ((70.3, 18.2), [(-5.1, -6.3), (0.7, 5.9), (6.4, -3.8)]),
 }
 
 
